@@ -29,7 +29,6 @@ theorem sync_simRel (H : ReplHyp D pre post out) (HS : SyncHyp D d out) (hwf : e
     (hnd : SchedNodup sched) (hl : ∀ k, pre.length ∈ (sched k).procs) (fuel : Nat) :
     SimRel (mkSim D (syncKindsA pre post d out e) scripts sched fuel) (mkSim D (syncKindsB pre post d out e) scripts sched fuel)
       (SyncRel D pre d out e) (fun tgt => tgt.twf D.ctx = true) where
-  nproc := syncKinds_length
   ctx := rfl
   doms := rfl
   scripts := rfl
@@ -38,21 +37,27 @@ theorem sync_simRel (H : ReplHyp D pre post out) (HS : SyncHyp D d out) (hwf : e
   next := fun _ _ hr => hr.1.next
   now := fun _ _ hr => hr.1.now
   obs := fun _ _ hr => hr.1.obs
-  timers := fun _ _ hr => hr.1.timers
-  loc := fun a b t hr => getLoc_of_off hr.1 _ (by
-    show (syncKindsA pre post d out e).length + t ≠ pre.length
-    rw [syncKindsA_length]; omega)
+  loc := fun a b t hr => by
+    show getLoc b ((syncKindsB pre post d out e).length + t) = getLoc a ((syncKindsA pre post d out e).length + t)
+    rw [syncKinds_length]
+    exact getLoc_of_off hr.1 _ (by rw [syncKindsA_length]; omega)
   setLoc := by
     intro a b t l ⟨hm, lA, lB, hlA, hlB, hq⟩
     have ho : (syncKindsA pre post d out e).length + t ≠ pre.length := by rw [syncKindsA_length]; omega
     obtain ⟨m, eA, eB⟩ := mid_setLoc hm _ ho l
+    have elen : (syncKindsB pre post d out e).length = (syncKindsA pre post d out e).length := syncKinds_length
+    show SyncRel D pre d out e (setLoc a ((syncKindsA pre post d out e).length + t) l) (setLoc b ((syncKindsB pre post d out e).length + t) l)
+    rw [elen]
     exact ⟨m, lA, lB, eA.trans hlA, eB.trans hlB, hq⟩
   addObs := by
     intro a b x ⟨hm, lA, lB, hlA, hlB, hq⟩
     exact ⟨⟨hm.curr, hm.next, hm.timers, hm.now, hm.deltas, by simp only [hm.obs], hm.len, hm.off⟩, lA, lB, hlA, hlB, hq⟩
   setTimer := by
     intro a b t x ⟨hm, lA, lB, hlA, hlB, hq⟩
-    exact ⟨⟨hm.curr, hm.next, by simp only [hm.timers], hm.now, hm.deltas, hm.obs, hm.len, hm.off⟩, lA, lB, hlA, hlB, hq⟩
+    have elen : (syncKindsB pre post d out e).length = (syncKindsA pre post d out e).length := syncKinds_length
+    exact ⟨⟨hm.curr, hm.next, by
+      show b.timers.set ((syncKindsB pre post d out e).length + t) x = a.timers.set ((syncKindsA pre post d out e).length + t) x
+      rw [elen, hm.timers], hm.now, hm.deltas, hm.obs, hm.len, hm.off⟩, lA, lB, hlA, hlB, hq⟩
   write := by
     intro a b tgt v ⟨hm, lA, lB, hlA, hlB, hq⟩ hw
     obtain ⟨hcur, hn, hcase⟩ := hq
